@@ -21,7 +21,7 @@ SAFE_FIELDS = ('iSafe', 'eSafe')
 INHERITED_FIELDS = ('iSafe', 'eSafe', 'iDel', 'eDel', 'iNew', 'eNew')
 
 def mask(d, fields):
-    """dump without the given flag fields (the known-finding classes D23 / D23b differ only in inherited flags)"""
+    """dump without the given flag fields (the known-finding classes D27 / D27b differ only in inherited flags)"""
     if isinstance(d, list):
         return [mask(x, fields) for x in d]
     if isinstance(d, dict):
@@ -162,7 +162,7 @@ class C19(Prop):
             '!path !include !null, copied unmerged. non-trivial = the tree has at least one composed node below the root; distinct by SHA-1')
     ASSUMPTIONS = ['object identity (the copy shares no node) is checked on the implementation only; the Lean model is a value model',
                    'copy / pickle protocol order is CPython behaviour (traced: state-then-items for deepcopy, items-then-state for pickle)',
-                   'a copy that differs from its original only in inherited safety after a merge with !unsafe content is attributed to finding D23']
+                   'a copy that differs from its original only in inherited safety after a merge with !unsafe content is attributed to finding D27']
 
     def corpus(self):
         D = lambda mode, *raws, **kw: dict({'docs': [{'raw': r} for r in raws], 'style': ['flow', 0, 0], 'mode': mode, 'vseed': 7}, **kw)
@@ -172,11 +172,11 @@ class C19(Prop):
                           'b': M({'c': M({'z': S(1)}, tag={'k': 'call', 'f': 'rec.f'})}, kw={'safe': False})})),
             # D02 witness (repaired): underscore keys survive the copy
             D('merge', M({'_w': S(3), 'a': M({'_u': S(1), 'v': S(2)})})),
-            # finding D23: a: !force {x: 1} <- a: !unsafe {}
+            # finding D27: a: !force {x: 1} <- a: !unsafe {}
             D('merge', M({'a': M({'x': S(1)}, kw={'prio': 1})}), M({'a': M([], kw={'safe': False})}), witness=True),
             D('prefix', M({'a': M({'x': M({'z': S(1)}, tag={'k': 'call', 'f': 'rec.f'})}, kw={'prio': 1})}), M({'a': M([], kw={'safe': False})}),
               M({'b': S(2)}), witness=True),
-            # finding D23b: _u: !call:rec.f{{'delete': False}} {} <- _u: ["hello world"]  (promotion of the function node)
+            # finding D27b: _u: !call:rec.f{{'delete': False}} {} <- _u: ["hello world"]  (promotion of the function node)
             D('merge', M({'_u': M([], tag={'k': 'call', 'f': 'rec.f'}, kw={'del': False})}), M({'_u': Q([S('hello world')])}), witness=True),
             D('parse', M({'p': Q([S('d')], tag={'k': 'path', 'f': 'cwd'}), 'i': Stext('inc.yaml', 'include'), 'n': Sempty('null', kw={'prio': 1}),
                           'e': Stext('T(p)', 'eval'), 'x': Stext('p', 'xref'), 'f': Stext("f'{p}'", 'fstr'), 'c': Sempty('clear'),
@@ -299,7 +299,7 @@ class C19(Prop):
                         return pre + f'evaluates-differently: the {which[5:]} evaluates differently: {d}'
         return None
 
-    ID_OF_KEY = {'merge-unsafe-not-propagated': 'D23', 'promotion-flags-not-propagated': 'D23b'}
+    ID_OF_KEY = {'merge-unsafe-not-propagated': 'D27', 'promotion-flags-not-propagated': 'D27b'}
 
     def oracle(self, case, io, ans):
         """a failure outside the recorded classes is always a violation; a failure inside a recorded class is reported as a
